@@ -4,6 +4,7 @@ import (
 	"fmt"
 	"math/rand"
 	"runtime"
+	"strings"
 	"sync/atomic"
 
 	"github.com/iotaledger/hive.go/runtime/syncutils"
@@ -23,6 +24,10 @@ func now() uint64 { return tick.Add(1) }
 var racingPrims = []string{
 	"counter/WaitIsZero", "counter/WaitIsBelow", "counter/WaitIsAbove",
 	"stack/WaitIsEmpty", "stack/WaitSizeIsBelow", "stack/WaitSizeIsAbove", "stack/PopOrWait:shutdown", "stack/PopOrWait:push",
+	// cross-primitive chains: the condition of the racing waiters becomes true only through the completion of
+	// OTHER waiters that were parked before (woken PopOrWait consumers empty the stack, woken counter waiters move the value on)
+	"chain/stack/PopOrWait->WaitIsEmpty", "chain/stack/PopOrWait->WaitSizeIsBelow",
+	"chain/counter/WaitIsAbove+Decrease->WaitIsZero", "chain/counter/WaitIsZero+Increase->WaitIsAbove",
 }
 
 // raceCfg is one round (replay format).
@@ -46,6 +51,9 @@ func genRace(seed int64, run int) raceCfg {
 	default:
 		c.Mode = "race"
 	}
+	if strings.HasPrefix(c.Prim, "chain/") && c.Mode == "nevertrue" {
+		c.Mode = "race" // without the change the chained conditions hold from the start
+	}
 	c.N = 4 + rng.Intn(13)
 	c.Contenders = rng.Intn(5)
 	return c
@@ -66,11 +74,16 @@ type round struct {
 	contend      func()          // read-only operation on the same object
 	holds        func() string   // "" if the condition holds now, else a description
 	expectReturn func(n int) int // how many of n waiters must return after the change (n, or 1 for one pushed element)
+	pre          func()          // chains: starts the first-stage waiters (parked before the barrier opens)
+	preLeft      func() int      // chains: first-stage waiters that have not completed
 	release      func()          // wakes waiters that are legitimately still parked (clean-up, judged)
 }
 
 func makeRound(cfg raceCfg, rng *rand.Rand) *round {
 	all := func(n int) int { return n }
+	if strings.HasPrefix(cfg.Prim, "chain/") {
+		return makeChain(cfg, rng, all)
+	}
 	switch cfg.Prim {
 	case "counter/WaitIsZero", "counter/WaitIsBelow", "counter/WaitIsAbove":
 		c := syncutils.NewCounter()
@@ -172,8 +185,15 @@ func runRacing(cfg raceCfg) (res raceResult) {
 	var returned atomic.Int64
 	callTick := make([]atomic.Uint64, cfg.N)
 	var chg0, chg1 atomic.Uint64
+	if rd.pre != nil {
+		rd.pre()
+		waitQuiescent() // every first-stage waiter is parked
+	}
 	if cfg.Mode == "pretrue" {
 		rd.change()
+		if rd.pre != nil {
+			waitQuiescent()
+		}
 	}
 	for i := 0; i < cfg.N; i++ {
 		i, j := i, rng.Intn(6)
@@ -235,6 +255,12 @@ func runRacing(cfg raceCfg) (res raceResult) {
 		lost = "stack/PopOrWait/parked-although-element-available"
 	}
 	judgeTrue := func(when string) bool {
+		if rd.preLeft != nil {
+			if n := rd.preLeft(); n > 0 {
+				viol(rd.fp+"/first-stage-waiter-parked", "chain round (%s, %s): %d first-stage waiter(s) are parked for ever although the change that satisfies them has happened", cfg.Prim, when, n)
+				return false
+			}
+		}
 		if why := rd.holds(); why != "" {
 			viol(rd.fp+"/racing-harness-condition-not-established", "%s: %s", when, why)
 			return false
@@ -277,4 +303,81 @@ func runRacing(cfg raceCfg) (res raceResult) {
 		}
 	}
 	return
+}
+
+// makeChain builds a cross-primitive round: m first-stage waiters are parked
+// before the barrier; the single harness-side change wakes them, and it is
+// THEIR completion (removing the elements / moving the counter on) that makes
+// the condition of the N racing second-stage waiters true for good.
+func makeChain(cfg raceCfg, rng *rand.Rand, all func(int) int) *round {
+	m := 1 + rng.Intn(4)
+	if cfg.Prim == "chain/counter/WaitIsZero+Increase->WaitIsAbove" {
+		m = 1 // the first Increase makes the first-stage condition false again: only one first-stage waiter can complete
+	}
+	var left atomic.Int64
+	left.Store(int64(m))
+	r := &round{expectReturn: all, preLeft: func() int { return int(left.Load()) }}
+	switch cfg.Prim {
+	case "chain/stack/PopOrWait->WaitIsEmpty", "chain/stack/PopOrWait->WaitSizeIsBelow":
+		s := syncutils.NewStack[int]()
+		var running atomic.Bool
+		running.Store(true)
+		t := 1
+		r.fp = "stack/WaitIsEmpty"
+		r.wait = func(int) { s.WaitIsEmpty() }
+		if cfg.Prim == "chain/stack/PopOrWait->WaitSizeIsBelow" {
+			t = 1 + rng.Intn(m)
+			r.fp = "stack/WaitSizeIsBelow"
+			r.wait = func(int) { s.WaitSizeIsBelow(t) }
+		}
+		r.pre = func() {
+			for i := 0; i < m; i++ {
+				go func() {
+					s.PopOrWait(running.Load) // consumer: parked on the empty stack, takes one element when woken
+					left.Add(-1)
+				}()
+			}
+		}
+		r.change = func() {
+			for i := 0; i < m; i++ {
+				s.Push(i)
+			}
+		}
+		r.contend = func() { s.Size() }
+		r.holds = func() string { return boolStr(s.Size() < t, fmt.Sprintf("size %d, threshold %d", s.Size(), t)) }
+	case "chain/counter/WaitIsAbove+Decrease->WaitIsZero":
+		c := syncutils.NewCounter()
+		r.fp = "counter/WaitIsZero"
+		r.wait = func(int) { c.WaitIsZero() }
+		r.pre = func() {
+			for i := 0; i < m; i++ {
+				go func() {
+					c.WaitIsAbove(0)
+					c.Decrease()
+					left.Add(-1)
+				}()
+			}
+		}
+		r.change = func() { c.Update(m) }
+		r.contend = func() { c.Get() }
+		r.holds = func() string { return boolStr(c.Get() < 1, fmt.Sprintf("value %d", c.Get())) }
+	default: // chain/counter/WaitIsZero+Increase->WaitIsAbove
+		c := syncutils.NewCounter()
+		c.Set(1)
+		r.fp = "counter/WaitIsAbove"
+		r.wait = func(int) { c.WaitIsAbove(0) }
+		r.pre = func() {
+			for i := 0; i < m; i++ {
+				go func() {
+					c.WaitIsZero()
+					c.Increase()
+					left.Add(-1)
+				}()
+			}
+		}
+		r.change = func() { c.Decrease() }
+		r.contend = func() { c.Get() }
+		r.holds = func() string { return boolStr(c.Get() > 0, fmt.Sprintf("value %d", c.Get())) }
+	}
+	return r
 }
